@@ -509,7 +509,7 @@ func programLine(l []byte, bh *Header) error {
 }
 
 func commentLine(l []byte, bh *Header) error {
-	fields := bytes.Split(l, []byte{'\t'})
+	fields := bytes.SplitN(l, []byte{'\t'}, 2)
 	if len(fields) < 2 {
 		return errBadHeader
 	}
